@@ -118,6 +118,9 @@ func genC03(g *Gen, tier string) *Program {
 		} else {
 			c.DefBuckets = genDurSpec(g)
 		}
+		if g.Bool(40) {
+			c.Flags = map[string]int{"reuse_default_buckets": 1}
+		}
 	}
 	nTasks := g.Range(1, 3)
 	maxOps := 9
